@@ -244,6 +244,12 @@ func returnsParam(fn *ssa.Function, idx int) bool {
 			continue
 		}
 		for i := range ret.Results {
+			// a number or a struct of numbers read out of the parameter does not alias it
+			switch ret.Results[i].Type().Underlying().(type) {
+			case *types.Slice, *types.Pointer, *types.Map, *types.Interface:
+			default:
+				continue
+			}
 			if DerivesFromNoCall(RetOperand(ret, i), func(v ssa.Value) bool { return v == ssa.Value(prm) }) {
 				return true
 			}
